@@ -72,7 +72,7 @@ Proof. unfold own_domain. intros H. unfold at_value. rewrite H. split; reflexivi
 
 (* enumerated attributes land in their own family, whatever constant form stores them *)
 Theorem enumerated_in_family name r c z : member name enumerated = true -> uval r = Some z ->
-  (forall b, r <> RBlock b) -> at_value name r c = ACst z (AFam name).
+  (forall big b, r <> RBlock big b) -> at_value name r c = ACst z (AFam name).
 Proof.
   intros M U NB. unfold at_value.
   destruct r; cbn in U; try discriminate; try (unfold dependent, unsigned_with; rewrite M; cbn [uval]; inversion U; reflexivity);
@@ -90,3 +90,7 @@ Theorem discr_value_is_error w bits c : at_value AT_discr_value (RData w bits) c
 Proof. reflexivity. Qed.
 Theorem unknown_form_is_error name c : at_value name ROther c = AErr.
 Proof. reflexivity. Qed.
+
+(* a block constant in a big-endian file reads as the same bytes in reverse order do in a little-endian one *)
+Lemma block_byte_order b enc : encoding_value (RBlock true b) enc = encoding_value (RBlock false (rev b)) enc.
+Proof. unfold encoding_value. rewrite rev_length. reflexivity. Qed.
